@@ -167,5 +167,29 @@ let () = iter_lines (fun line ->
         let (ok, p, acc, oob) = go (List.init c (fun _ -> Z0), zi 0, zi 0, [], false) (split ops) in
         if int_of_z p = -99 then "STUCK" else
         (if ok then "1" else "0") ^ " " ^ hexz acc ^ " " ^ string_of_int (int_of_z p) ^ (if oob then " OOB" else "")
+    | ["get"; cap; scr; lens; src] ->
+        (* substdi.c as generated (substdio_get over getthis / substdio_feed / oneread; op = the scripted read oracle), protocol of
+           harness/h_substdio.c "get"; " OOB" when the checked variant saw an access outside the buffer or the destination *)
+        let split s = if s = "-" then [] else String.split_on_char ',' s in
+        let num s = int_of_string (String.sub s 1 (String.length s - 1)) in
+        let script = List.map (fun t -> z_of_int (if t.[0] = 'i' then -1 else if t.[0] = 'e' then -2 else num t)) (split scr) in
+        let c = int_of_string cap in let zi = z_of_int in
+        let source = zl src in
+        let rec go (x, p, n, k, pos, first, oob) = function
+          | [] -> if oob then " OOB" else ""
+          | l :: rest ->
+              let len = int_of_string l in
+              let dst = List.init (max len 1) (fun _ -> Z0) in
+              (match C_substdio_get.run f x p n (zi 0) dst (zi 0) (zi len) script source k pos, K_substdio_get.run f x p n (zi 0) dst (zi 0) (zi len) script source k pos with
+               | Some (v, t), Some (_, kk) ->
+                   let r = int_of_z v in
+                   let oob' = oob || int_of_z kk.K_substdio_get.v__oob <> 0 in
+                   let item = string_of_int r ^ ":" ^ hexz (take (max r 0) t.C_substdio_get.a_buf) in
+                   (if first then "" else ",") ^ item ^
+                   (if r <= 0 then (if oob' then " OOB" else "") else
+                    go (t.C_substdio_get.a_s__x, t.C_substdio_get.v_s__p, t.C_substdio_get.v_s__n, t.C_substdio_get.v_rd__n, t.C_substdio_get.v_rd__pos, false, oob') rest)
+               | _ -> "STUCK") in
+        let ls = split lens in
+        if ls = [] then "-" else go (List.init c (fun _ -> Z0), zi 0, zi c, zi 0, zi 0, true, false) ls
     | _ -> "?" in
   print_string out; print_char '\n')
